@@ -1,5 +1,6 @@
 import Proofs.Sync
 import Proofs.Locks
+import Proofs.Term
 import Generated.Facts
 /-! # C12 — Close and Disconnect end the client from any state, promptly and for good
 
@@ -102,5 +103,31 @@ namespace Model
 /-! ## Closers take connection control before the write lock, like the read routine: they cannot block each other for ever -/
 
 theorem C12_fact_closers_lock_order : orderOK Facts.syn_Close_locks = true ∧ orderOK Facts.syn_Disconnect_locks = true := by decide
+
+/-! ## ReadSlices' ErrClosed: every pending exchange receives ErrClosed once, and never more than its channel holds -/
+
+/-- `termCallbacks`: every exchange still queued (at-least-once first, then exactly-once; placeholders of adopted records
+have no channel) receives ErrClosed exactly once, nothing else is sent to any exchange, and both sequences are terminated -/
+theorem C12_term_exchanges (s : S) (h1 : s.core.l1.seqClosed = false) (h2 : s.core.l2.seqClosed = false) :
+    s.termCallbacks.evs.filter Ev.isExch =
+      closedEvs s.placeholders s.core.l2.queue ++ closedEvs s.placeholders s.core.l1.queue ++ s.evs.filter Ev.isExch ∧
+    s.termCallbacks.core.l1.seqClosed = true ∧ s.termCallbacks.core.l2.seqClosed = true := by
+  obtain ⟨p1, c1, e1⟩ := flushQueue_spec s.placeholders s.core.l1.queue s rfl
+  obtain ⟨p2, c2, e2⟩ := flushQueue_spec s.placeholders s.core.l2.queue (s.flushQueue s.core.l1.queue) p1
+  simp only [S.termCallbacks, S.flushLevel, h1, Bool.false_eq_true, if_false, c1, h2]
+  refine ⟨?_, ?_, ?_⟩
+  · rw [breakAll_exch, releasePing_exch]
+    simp only [closedEvs]
+    rw [e2, e1]; simp [List.append_assoc]
+  · rw [(breakAll_core _).1, releasePing_core]; rfl
+  · rw [(breakAll_core _).1, releasePing_core]; rfl
+
+/-- a second `termCallbacks` sends nothing to any exchange: an exchange channel gets at most one notice at submission and one
+at termination, which is what its capacity of two is for (Close never blocks on an unread exchange) -/
+theorem C12_term_idempotent (s : S) (h1 : s.core.l1.seqClosed = true) (h2 : s.core.l2.seqClosed = true) :
+    s.termCallbacks.evs.filter Ev.isExch = s.evs.filter Ev.isExch := by
+  simp only [S.termCallbacks, S.flushLevel, h1, h2, if_true]
+  rw [breakAll_exch, releasePing_exch]
+
 
 end Model
